@@ -16,7 +16,7 @@ EXTENDS Naturals, FiniteSets, TLC
 
 CONSTANTS Types,        \* resource types
           Shareable,    \* types that support memberships ({"workflow_definition"})
-          Ops           \* {"get", "get_by_name", "list", "update", "delete", "create_as_other"}
+          Ops           \* {"get", "get_by_name", "load", "list", "update", "delete", "create_as_other"}
 
 Projects == {"A", "B"}
 Scopes   == {"private", "public"}
@@ -39,7 +39,7 @@ Init == /\ type \in Types /\ owner \in Projects /\ scope \in Scopes
 \* an admin MAY reach the private rows of other projects (the property does not demand it; at db-api level some
 \* lookups are insecure for admins and some are not): for that case either outcome is a behaviour
 AdminOnly == admin /\ ~CanSee(actor, FALSE, owner, scope, type, member, mholder)
-Read ==   /\ phase = "created" /\ op \in {"get", "get_by_name", "list"}
+Read ==   /\ phase = "created" /\ op \in {"get", "get_by_name", "load", "list"}
           /\ outcome' \in (IF AdminOnly THEN {"found", "notfound"}
                            ELSE IF CanSee(actor, admin, owner, scope, type, member, mholder) THEN {"found"} ELSE {"notfound"})
           /\ phase' = "done" /\ UNCHANGED <<type, owner, scope, member, mholder, actor, admin, op, exists, changed>>
@@ -61,6 +61,6 @@ Spec == Init /\ [][Next]_vars /\ WF_vars(Next)
 NoForeignRead  == (outcome = "found") => CanSee(actor, admin, owner, scope, type, member, mholder)
 NoForeignWrite == (changed \/ ~exists) => CanChange(actor, admin, owner)
 PrivateInvisible == (phase = "done" /\ ~admin /\ actor # owner /\ scope = "private" /\ (member # "accepted" \/ mholder # "actor")
-                     /\ op \in {"get", "get_by_name", "list"}) => outcome = "notfound"
+                     /\ op \in {"get", "get_by_name", "load", "list"}) => outcome = "notfound"
 Decided == <>(phase = "done")
 =============================================================================
